@@ -54,6 +54,21 @@ CHECKS = {
             "Model vs real solver / generators compared bit for bit (RNG draws recorded).",
             "Trusted: Lean kernel; standard axioms; cond < 1e4 is not proved (searched numerically); np.linalg.norm and Q are oracle inputs; projections branch / run_in_parallel / scaling not modelled.",
             "6/C14"),
+    "C01": ("Lean 4 theorems about the clipping kernels for ANY rounding of + and x (uninterpreted operations on order keys) + AST-regenerated call-site inventory + bit-exact Float correspondence",
+            "Proof: as_absolute_coordinates, remove_scaling and their composition return a value inside the user's bounds (or NaN) for every rounding, base point, step and accumulated relative bounds; x0 clamping lands in the bounds; "
+            "every evaluate_objective / objfun call site in /repo (regenerated from the AST each run) is of that shape. Float model compared bit for bit with the real functions.",
+            "Trusted: Lean kernel; standard axioms; double<->Int order-key embedding; the call-site inventory is syntactic (translator gen_callsites.py); that a step is never NaN is numerics (search); projections case rests on C09.",
+            "6/C01"),
+    "C09": ("Lean 4 theorems about Dykstra's routine (feasibility bound in any real inner-product space; last-projector exactness for any rounding) and a trace model of 'every evaluation is a projected point' + oracle-mode bit-exact correspondence",
+            "Proof: when the routine stops by its rule the result is within sqrt(p*tol) of every set (exact arithmetic), it lies exactly in the last set (the bound box) for any rounding, and in every accepted trace each evaluation after x0 is a box-last Dykstra output / an infeasible x0 is replaced. "
+            "Real runs with projections must be accepted traces; each recorded dykstra call is replayed in Lean Float.",
+            "Trusted: Lean kernel; standard axioms; user projectors are oracle values; feasibility bound is exact-arithmetic (float gap O(eps)); trace inclusion is sampled.",
+            "6/C09"),
+    "C15": ("Lean 4 theorems about Dykstra's routine over arbitrary operations (sweep cap, last-set exactness, fixed point) and over real inner-product spaces (feasibility bound) + oracle/closed-language Float correspondence",
+            "Proof: sweeps <= max_iter, result in the last set (box) exactly for any rounding, a common point is returned unchanged, stopped-by-rule => within sqrt(p*tol) of every set. "
+            "The near-optimality clause is NOT a theorem (false: kernel-checked IEEE counter-example; recorded findings). Real util.dykstra replayed bit-exactly with recorded projector outputs.",
+            "Trusted: Lean kernel; standard axioms; projectors as oracles / a closed language (box, ball, half-space); stopping sum compared with 1e-12 relative tolerance (np.float64**2 is not bit-reproducible).",
+            "6/C15"),
 }
 
 PENDING_REASON = "check not built yet in this round (planned: see DESIGN.md section 6); not claimed until its theorem, correspondence and search exist"
